@@ -2336,7 +2336,7 @@ def VectorObject34DType_rotate_euler(v, phi, theta, psi, order="zxz"):
         function, *returns = _from_signature(
             "",
             numba_modules["spatial"]["rotate_euler"],
-            (numba_aztype(v), numba_ltype(v), order),
+            (numba_aztype(v), numba_ltype(v), order.lower()),
         )
 
         instance_class = v.instance_class
